@@ -395,6 +395,14 @@ fn recipes_case(ctx: &mut Ctx, conv: &Converter, recipes: &[ScaledRecipe], texts
         ctx.case(format!("gr ingredients {}", spec_recipe(r)), grouped.iter().map(|(i, g)| format!("{i}:{}", render_group(g))).collect::<Vec<_>>().join(" ## "),
             !grouped.is_empty(), input.clone());
         // the folded scaling outcome of every definition (model: foldOutcome, Num/IngListMore.lean)
+        // (second pass: the same recipe read back from JSON with some outcomes rewritten to `error` / `fixed`, so that every arm of the fold is reached)
+        let rewritten: Option<ScaledRecipe> = r.scaled_data().and_then(|_| serde_json::to_value(r).ok()).and_then(|mut j| {
+            let a = j.get_mut("data")?.get_mut("ingredients")?.as_array_mut()?;
+            let n = a.len();
+            for (k, o) in a.iter_mut().enumerate() { match (k + n) % 4 { 0 => *o = serde_json::Value::String("error".into()), 1 => *o = serde_json::Value::String("fixed".into()), _ => {} } }
+            serde_json::from_value(j).ok()
+        });
+        for r in std::iter::once(r).chain(rewritten.iter()) {
         if let Some(data) = r.scaled_data() {
             let name = |o: &cooklang::scale::ScaleOutcome| match o { cooklang::scale::ScaleOutcome::Scaled => "scaled", cooklang::scale::ScaleOutcome::Fixed => "fixed", cooklang::scale::ScaleOutcome::NoQuantity => "noQuantity", cooklang::scale::ScaleOutcome::Error(_) => "error" };
             if let Ok(gs) = guarded(|| r.group_ingredients(conv).into_iter().map(|g| (g.index, g.outcome.as_ref().map(name))).collect::<Vec<_>>()) {
@@ -408,6 +416,7 @@ fn recipes_case(ctx: &mut Ctx, conv: &Converter, recipes: &[ScaledRecipe], texts
                     ctx.case(toks.join(" "), o.to_string(), !refs.is_empty(), input.clone());
                 }
             }
+        }
         }
         // definitions, in recipe order
         let defs: Vec<usize> = (0..r.ingredients.len()).filter(|&j| r.ingredients[j].relation.is_definition()).collect();
